@@ -5,7 +5,7 @@
 (* backends — all rendering entry points, the Write/PushParam event stream *)
 (* of the real renderer, inject_parameters.                                *)
 (***************************************************************************)
-EXTENDS GrammarLaw, WriterLaw, IOUtils, TLCExt, FiniteSets
+EXTENDS GrammarLaw, RefStmt, WriterLaw, IOUtils, TLCExt, FiniteSets
 Rec == ndJsonDeserialize(IOEnv.TRACE)
 Backends == {"mysql", "pg", "sqlite"}
 WithGrammar == "GRAMMAR" \in DOMAIN IOEnv /\ IOEnv.GRAMMAR = "1"
@@ -57,14 +57,16 @@ Exact(B, r) ==
   IN o.inline = RenderInline(B, r.stmt) /\ o.sql = p.sql /\ Len(o.lits) = Len(p.vals) /\ \A i \in DOMAIN p.vals : o.lits[i] = p.vals[i]
 
 Verdict(r) ==
-  IF IsPanic(r.obs) THEN [id |-> r.id, keys |-> {"C01/harness/panic", "C02/harness/panic"}, exact |-> TRUE, nvals |-> 0, skipped |-> 0]
+  IF IsPanic(r.obs) THEN [id |-> r.id, keys |-> {"C01/harness/panic", "C02/harness/panic"}, exact |-> TRUE, nvals |-> 0, skipped |-> 0, ref |-> "", ordered |-> FALSE]
   ELSE
   LET ks == UNION {KeysFor(B, r) : B \in Backends}
         \cup (IF r.obs.r.eq_after THEN {} ELSE {"C02/all/rendering_modified_the_statement"})
   IN [id |-> r.id, keys |-> ks \ {"?unsupported"},
       skipped |-> Cardinality({B \in Backends : KeysFor(B, r) = {"?unsupported"}}),
       exact |-> \A B \in Backends : Exact(B, r),
-      nvals |-> IF IsPanic(r.obs.r["pg"]) THEN 0 ELSE Len(r.obs.r["pg"].r.values)]
+      nvals |-> IF IsPanic(r.obs.r["pg"]) THEN 0 ELSE Len(r.obs.r["pg"].r.values),
+      ref |-> IF WithGrammar /\ ~Unsupported("sqlite", BuildStmt(r.stmt)) THEN RefS(BuildStmt(r.stmt)) ELSE "",
+      ordered |-> LET s == BuildStmt(r.stmt) IN s.kind = "select" /\ Len(s.orders) > 0]
 
 Step == /\ l <= Len(Rec)
         /\ PrintT(<<"R", ToJson(Verdict(Rec[l]))>>)
